@@ -1,5 +1,329 @@
 package main
 
-import "verif/internal/harness"
+import (
+	"bytes"
+	"context"
+	"fmt"
+	"math/rand"
+	"os"
+	"strings"
+	"time"
 
-func bisyncCases(run *harness.Run, n int) {}
+	"verif/internal/drive"
+	"verif/internal/fakeredis"
+	"verif/internal/harness"
+
+	"github.com/mgtv-tech/redis-GunYu/config"
+	"github.com/mgtv-tech/redis-GunYu/syncer"
+)
+
+// Bisync states are not hand-written: a real bisync replay (start-up through VerifNewOutput,
+// full sync of an empty snapshot, then an incremental stream of SET commands / MULTI groups
+// through RedisOutput.Send) produces the namespace of the old replay mode.
+
+type biSpec struct {
+	OldMode   config.ReplayMode
+	Units     int
+	FlushWait bool // let the frontier flush interval pass before the replay is stopped
+	Resync    bool // a later full sync stored a newer root checkpoint than the mode-specific state
+	Failover  bool // the mode switch coincides with a source failover
+	Business  []int
+	Base      int64
+}
+
+func (s biSpec) class() string {
+	f := []string{}
+	if s.FlushWait {
+		f = append(f, "frontier-flushed")
+	} else {
+		f = append(f, "journal-tail")
+	}
+	if s.Resync {
+		f = append(f, "root-newer-after-resync")
+	}
+	if s.Failover {
+		f = append(f, "failover")
+	}
+	return fmt.Sprintf("bisync/dbs=%d/%s", 1+len(s.Business), strings.Join(f, "+"))
+}
+
+type biCase struct {
+	key   string
+	spec  biSpec
+	id1   string
+	id2   string
+	newID string
+	s0    []fakeredis.DB
+	p0    found
+	end   int64 // source offset after the last replayed unit
+	why   string
+}
+
+func respCmd(b *bytes.Buffer, args ...string) {
+	fmt.Fprintf(b, "*%d\r\n", len(args))
+	for _, a := range args {
+		fmt.Fprintf(b, "$%d\r\n%s\r\n", len(a), a)
+	}
+}
+
+// biStream renders `units` replay units (single SETs and MULTI groups); returns the bytes and
+// the id carried by the last command.
+func biStream(r *rand.Rand, tag string, units int) ([]byte, string) {
+	var b bytes.Buffer
+	last := ""
+	respCmd(&b, "select", "0")
+	for u := 0; u < units; u++ {
+		if r.Intn(3) == 0 {
+			respCmd(&b, "multi")
+			for k := 0; k < 2+r.Intn(2); k++ {
+				last = fmt.Sprintf("%s-u%d-%d", tag, u, k)
+				respCmd(&b, "set", fmt.Sprintf("k:%s:%d:%d", tag, u, k), last)
+			}
+			respCmd(&b, "exec")
+		} else {
+			last = fmt.Sprintf("%s-u%d", tag, u)
+			respCmd(&b, "set", fmt.Sprintf("k:%s:%d", tag, u), last)
+		}
+	}
+	return b.Bytes(), last
+}
+
+// buildBisync runs the real tool against a fresh target double under the process-wide
+// (bisync, OldMode) configuration.
+func buildBisync(r *rand.Rand, c *biCase) {
+	ctx := context.Background()
+	t := newTarget(nil)
+	defer t.Close()
+	for _, d := range c.spec.Business {
+		t.DoS(d, "SET", fmt.Sprintf("biz:%d", d), "v")
+	}
+	src := newSource(c.id1, c.id2)
+	defer src.Close()
+	ids := []string{c.id1, c.id2}
+
+	out, err := syncer.VerifNewOutput(syncerCfg(src.Addr(), t.Addr()))
+	if err != nil {
+		c.why = "first start: " + err.Error()
+		return
+	}
+	sp, err := out.StartPoint(ctx, ids)
+	if err != nil || sp.Offset >= 0 {
+		c.why = fmt.Sprintf("first start point: %+v %v", sp, err)
+		return
+	}
+	ss := &drive.Session{IDs: ids, Out: out, Watch: 60 * time.Second}
+	if err := ss.FullSync(ctx, drive.EmptyRDB, c.spec.Base); err != nil {
+		c.why = "full sync: " + err.Error()
+		return
+	}
+	sp, err = out.StartPoint(ctx, ids)
+	if err != nil || sp.Offset != c.spec.Base {
+		c.why = fmt.Sprintf("start point after full sync: %+v %v", sp, err)
+		return
+	}
+	data, last := biStream(r, strings.TrimPrefix(c.key, "bisync-"), c.spec.Units)
+	seen := drive.WaitForID(t, last)
+	ar := ss.SendAof(ctx, c.spec.Base, []drive.Step{{Data: data}}, false, 4096)
+	select {
+	case <-seen:
+	case e := <-ar.Done:
+		ar.F.Abort()
+		c.why = fmt.Sprintf("replay ended early: %v", e)
+		return
+	case <-time.After(60 * time.Second):
+		ar.Stop(5 * time.Second)
+		c.why = "watchdog: last unit not applied"
+		return
+	}
+	if c.spec.FlushWait {
+		time.Sleep(260 * time.Millisecond) // > 2 × bisyncFrontierFlushInterval (state variety only, no verdict depends on it)
+	}
+	if _, ok := ar.Stop(30 * time.Second); !ok {
+		c.why = "Send did not return after cancel"
+		return
+	}
+	t.SetOnApplied(nil)
+	c.end = c.spec.Base + int64(len(data))
+	if c.spec.Resync {
+		// the source forced a full resynchronisation later on: same namespace, newer root checkpoint
+		out2, err := syncer.VerifNewOutput(syncerCfg(src.Addr(), t.Addr()))
+		if err != nil {
+			c.why = "second start: " + err.Error()
+			return
+		}
+		if _, err := out2.StartPoint(ctx, ids); err != nil {
+			c.why = "second start point: " + err.Error()
+			return
+		}
+		ss2 := &drive.Session{IDs: ids, Out: out2, Watch: 60 * time.Second}
+		if err := ss2.FullSync(ctx, drive.EmptyRDB, c.end+int64(1000+r.Intn(100000))); err != nil {
+			c.why = "second full sync: " + err.Error()
+			return
+		}
+	}
+	c.s0 = t.Snapshot()
+	// BEFORE: next start with the old configuration (old mode, old ids) on a copy
+	// (the start's own scan order may make it miss the mode-specific records — see the
+	// start-reads-mode-state-in-dbK signature — so the position HELD is the best of a few)
+	for k := 0; k < 3; k++ {
+		tc := newTarget(c.s0)
+		f := nextStart(src, tc.Addr(), startCfg{ID1: c.id1, ID2: c.id2})
+		tc.Close()
+		if k == 0 || f.Err != "" || (c.p0.Err == "" && f.Has && f.Offset > c.p0.Offset) {
+			c.p0 = f
+		}
+		if f.Err != "" {
+			break
+		}
+	}
+}
+
+func bisyncCases(run *harness.Run, n int) {
+	modes := []config.ReplayMode{config.ReplayModeSync, config.ReplayModePipeline, config.ReplayModeParallel}
+	var cases []*biCase
+	for i := 0; i < n; i++ {
+		key := fmt.Sprintf("bisync-%d", i)
+		if !run.WantCase(key) {
+			continue
+		}
+		r := run.Rand(key + "/spec")
+		c := &biCase{key: key, id1: mkID(6, r), id2: zeroID, newID: mkID(9, r)}
+		c.spec = biSpec{OldMode: modes[i%3], Units: 1 + r.Intn(6), FlushWait: r.Intn(2) == 0, Resync: r.Intn(4) == 0, Failover: r.Intn(4) == 0,
+			Base: int64(1000 + r.Intn(1_000_000))}
+		for k := r.Intn(3); k > 0; k-- {
+			c.spec.Business = append(c.spec.Business, 1+r.Intn(15))
+		}
+		cases = append(cases, c)
+	}
+	for _, old := range modes {
+		var batch []*biCase
+		for _, c := range cases {
+			if c.spec.OldMode == old {
+				batch = append(batch, c)
+			}
+		}
+		if len(batch) == 0 {
+			continue
+		}
+		// phase A (process-wide configuration = bisync, old mode): produce the states and the before-measurement
+		setReplayMode(true, old)
+		harness.Parallel(len(batch), 12, func(i int) {
+			c := batch[i]
+			buildBisync(run.Rand(c.key+"/build"), c)
+		})
+		for _, c := range batch {
+			if c.why != "" {
+				run.Inconclusive("%s: building the bisync state (%s): %s", c.key, old, c.why)
+			} else if c.p0.Err != "" {
+				run.Inconclusive("%s: before-measurement failed: %s", c.key, c.p0.Err)
+				c.why = "p0"
+			} else if !c.p0.Has {
+				run.Inconclusive("%s: the bisync replay left no resume position (%s)", c.key, old)
+				c.why = "p0"
+			} else {
+				run.Count("bisync_states_built|"+string(old), 1)
+			}
+		}
+		// phase B: switch the process-wide mode and run/sweep the migration
+		for _, nm := range modes {
+			if nm == old {
+				continue
+			}
+			setReplayMode(true, nm)
+			harness.Parallel(len(batch), 12, func(i int) {
+				c := batch[i]
+				if c.why != "" {
+					return
+				}
+				for rep := 0; rep < reps/2; rep++ {
+					if !oneSwitch(run, c, old, nm, rep) {
+						break // refused without writing anything: deterministic, no need to repeat
+					}
+				}
+			})
+		}
+	}
+}
+
+func oneSwitch(run *harness.Run, c *biCase, old, nm config.ReplayMode, rep int) bool {
+	newCfg := startCfg{ID1: c.id1, ID2: c.id2}
+	if c.spec.Failover {
+		newCfg = startCfg{ID1: c.newID, ID2: c.id1}
+	}
+	src := newSource(newCfg.ID1, newCfg.ID2)
+	defer src.Close()
+	t := newTarget(c.s0)
+	defer t.Close()
+	_, opErr := syncer.VerifNewOutput(syncerCfg(src.Addr(), t.Addr()))
+	kind := fmt.Sprintf("%s:%s→%s", opModeSwitch, old, nm)
+	lg := capture(kind, c.s0, t, 0)
+	if opErr != nil {
+		if os.Getenv("C17_DEBUG") != "" {
+			fmt.Printf("DEBUG %s %s: %v\nspec=%+v\nstate:\n  %s\nrequests:\n  %s\n", c.key, kind, opErr, c.spec, strings.Join(bookDump(c.s0), "\n  "), strings.Join(reqDump(lg.Reqs), "\n  "))
+		}
+		// a refusal (the tool returns an error and restarts) is fail-safe, not a loss; it is
+		// counted, and the state it leaves is swept only if the refused run wrote anything
+		run.Count("operations_refused", 1)
+		run.Seen("refusals", kind+": "+lastLine(opErr.Error()))
+		run.Eval(1)
+		run.Distinct(fmt.Sprintf("%s|%s|refused-by-tool", kind, c.spec.class()))
+		wrote := false
+		for _, a := range lg.Apps {
+			if a.Write && !a.IsErr {
+				wrote = true
+			}
+		}
+		if !wrote {
+			return false
+		}
+	}
+	m := findBisyncMarks(lg)
+	cc := &caseCtx{Key: c.key, Kind: kind, Rep: rep, Layout: c.spec.class(), Desc: map[string]any{"spec": c.spec, "id1": c.id1, "id2": c.id2, "replayed_up_to": c.end},
+		OldCfg: startCfg{ID1: c.id1, ID2: c.id2}, NewCfg: newCfg, P0: c.p0, SrcNew: src,
+		Extra: map[string]any{"old_mode": string(old), "new_mode": string(nm)}}
+	sweepOp(run, cc, lg, m)
+	sampleOnce(run, cc, lg)
+	return true
+}
+
+func lastLine(s string) string {
+	if i := strings.LastIndexByte(strings.TrimSpace(s), '\n'); i >= 0 {
+		s = strings.TrimSpace(s)[i+1:]
+	}
+	if i := strings.Index(s, ": checkpoint("); i >= 0 {
+		s = s[:i]
+	}
+	return s
+}
+
+// findBisyncMarks: write-new = first write to a key of a namespace that did not exist in the
+// initial state; repoint = index write; delete-old = first DEL.
+func findBisyncMarks(l *opLog) marks {
+	m := marks{}
+	exists := map[string]bool{}
+	for _, d := range l.S0 {
+		for k := range d {
+			exists[k] = true
+		}
+	}
+	for _, a := range l.Apps {
+		if !a.Write || a.IsErr || len(a.Args) == 0 {
+			continue
+		}
+		switch a.Cmd {
+		case "HSET", "HSETNX", "HMSET", "SET", "ZADD":
+			if isIndex(a.Args[0]) {
+				if m.Repoint == 0 {
+					m.Repoint = a.ReqSeq
+				}
+			} else if !exists[string(a.Args[0])] && m.WriteNew == 0 {
+				m.WriteNew = a.ReqSeq
+			}
+		case "DEL", "UNLINK", "HDEL", "ZREM":
+			if m.FirstDel == 0 {
+				m.FirstDel = a.ReqSeq
+			}
+		}
+	}
+	return m
+}
